@@ -87,4 +87,13 @@ CLAIMED['C07'] = (
     'DESIGN.md 3/C07',
 )
 
+CLAIMED['C08'] = (
+    'sympy normal-form comparison of assignment right-hand sides with the defining formulas, prefix-normalised sibling comparison of the three statistic families, label/quantity table agreement (ast)',
+    'Decides that every reported figure is computed by its defining formula and shown under its own label: the eight summary statistics, the pairwise test, t, p and the '
+    'likelihood-ratio test are compared with the stated formula in sympy normal form; the three variance-covariance matrices and the std-err / correlation blocks match their '
+    'structural definition; the classical, robust and bootstrap blocks and setters are alpha-equivalent after stripping the family prefix and read no attribute of another family; '
+    'all 67 label/quantity pairs of the parameter table, correlation table, general statistics, F12 file and compiled table agree with the writer order. Not decided: numerical linear algebra.',
+    'DESIGN.md 3/C08',
+)
+
 NOT_APPLICABLE = {f'C{i:02d}': WIP for i in range(1, 20)}
